@@ -67,39 +67,110 @@ def lean_str(s):
 
 def tokpat(src):
     src = src.strip()
-    m = re.fullmatch(r"Token!\[(\S+)\]", src)
+    m = re.fullmatch(r"Token ! \[ (.+?) \]", src)
     if m:
-        return ".punct [" + ", ".join(lean_char(c) for c in m.group(1)) + "]"
-    m = re.fullmatch(r"keywords::(\w+)", src)
+        return ".punct [" + ", ".join(lean_char(c) for c in m.group(1).replace(" ", "")) + "]"
+    m = re.fullmatch(r"keywords :: (\w+)", src)
     if m:
         return ".kw " + lean_str(m.group(1))
-    if src == "syn::token::Bracket":
+    if src == "syn :: token :: Bracket":
         return ".bracket"
     raise ExtractError("unknown token test: " + src)
 
 
+# ------------------------------------------------------------------------------------------------
+# canonical token text of a Rust source file: comments dropped, every token separated by exactly one space.
+# Multi-character operators inside which Rust allows no white space are kept together; everything else (brackets,
+# commas, `<`, `>`, `!`, `?`, `.`, …) is a token of its own, so line breaks, indentation and rustfmt settings do not matter.
+
+_MULTI = ["..=", "...", "::", "=>", "->", "&&", "||", "==", "!=", "<=", ">=", "..", "+=", "-=", "*=", "/="]
+_TOK = re.compile(r"""
+    (?P<ws>\s+)
+  | (?P<lc>//[^\n]*)
+  | (?P<rs>b?r(?P<h>\#*)".*?"(?P=h))
+  | (?P<st>b?"(?:\\.|[^"\\])*")
+  | (?P<ch>b?'(?:\\(?:x[0-9a-fA-F]{2}|u\{[0-9a-fA-F]+\}|.)|[^'\\])')
+  | (?P<lt>'[A-Za-z_][A-Za-z0-9_]*)
+  | (?P<id>(?:r\#)?[A-Za-z_][A-Za-z0-9_]*)
+  | (?P<nu>\d[A-Za-z0-9_]*)
+""", re.X | re.S)
+
+
+def lex(text):
+    out = []
+    i, n = 0, len(text)
+    while i < n:
+        if text.startswith("/*", i):
+            depth, j = 1, i + 2
+            while j < n and depth:
+                if text.startswith("/*", j):
+                    depth += 1
+                    j += 2
+                elif text.startswith("*/", j):
+                    depth -= 1
+                    j += 2
+                else:
+                    j += 1
+            i = j
+            continue
+        m = _TOK.match(text, i)
+        if m:
+            if m.lastgroup not in ("ws", "lc"):
+                out.append(m.group(0))
+            i = m.end()
+            continue
+        for op in _MULTI:
+            if text.startswith(op, i):
+                out.append(op)
+                i += len(op)
+                break
+        else:
+            out.append(text[i])
+            i += 1
+    return out
+
+
+def canon(text):
+    return " ".join(lex(text))
+
+
+def rx(template):
+    """A regex over canonical token text, written as Rust text.  `«…»` encloses raw regex (groups, alternatives, `.*?`);
+    everything else is lexed like the source and matched token by token."""
+    parts = []
+    for k, seg in enumerate(re.split(r"«(.*?)»", template, flags=re.S)):
+        if k % 2:
+            if seg.startswith("~") and parts:        # `«~…»`: glued to what precedes (for optional tokens: `«~(?: ,)?»`)
+                parts[-1] += seg[1:]
+            else:
+                parts.append(seg)
+        else:
+            toks = lex(seg)
+            if toks:
+                parts.append(" ".join(re.escape(t) for t in toks))
+    return " ".join(parts)
+
+
 def strip_comments(s):
-    s = re.sub(r"//[^\n]*", "", s)
-    return s
+    return canon(s)
 
 
-def cfg_not_full_fn(text, fn_name):
-    """Body of the `#[cfg(not(feature = "full"))] fn fn_name` item."""
-    m = need(re.search(r'#\[cfg\(not\(feature = "full"\)\)\]\s*(?:pub )?fn ' + fn_name + r"\b", text),
-             "non-full fn " + fn_name)
-    return brace_body(text, text.index("{", m.end()))
-
-
-def brace_body(text, open_idx):
-    assert text[open_idx] == "{"
+def block_after(ctext, start):
+    """`ctext` canonical; `start` index of a `{` token: the text between it and its matching `}`."""
+    assert ctext[start] == "{"
     depth = 0
-    for i in range(open_idx, len(text)):
-        if text[i] == "{":
+    toks = ctext[start:].split(" ")
+    acc = []
+    for t in toks:
+        if t == "{":
             depth += 1
-        elif text[i] == "}":
+            if depth == 1:
+                continue
+        elif t == "}":
             depth -= 1
             if depth == 0:
-                return text[open_idx + 1:i]
+                return " ".join(acc)
+        acc.append(t)
     raise ExtractError("unbalanced braces")
 
 
@@ -177,250 +248,321 @@ def toks_lean(items):
 # ------------------------------------------------------------------------------------------------
 
 
+def old_defs():
+    """name -> text of each `def` of the last generated Tables.lean (with its doc comment)"""
+    if not os.path.exists(OUT):
+        return {}
+    with open(OUT) as f:
+        text = f.read()
+    body = text.split("open JoinModel\n", 1)[-1].rsplit("end JoinModel.Tables", 1)[0]
+    defs = {}
+    for chunk in re.split(r"\n(?=(?:/--.*?-/\n)?def )", "\n" + body, flags=re.S):
+        m = re.search(r"^def (\w+)", chunk, re.M)
+        if m:
+            defs[m.group(1)] = chunk.strip("\n")
+    return defs
+
+
 def main():
     summary = {}
-    L = []
-    L.append("-- GENERATED by tools/extract_tables.py from the current /repo tree. Do not edit.")
-    L.append("import JoinModel.TableTypes")
-    L.append("namespace JoinModel.Tables")
-    L.append("open JoinModel")
-    L.append("")
+    head = ["-- GENERATED by tools/extract_tables.py from the current /repo tree. Do not edit.",
+            "import JoinModel.TableTypes", "namespace JoinModel.Tables", "open JoinModel", ""]
+    old = old_defs()
+    fallback = {}
+    state = {}
 
-    # ---- T1/T2: determiners (text) -------------------------------------------------------------
-    parse_rs = strip_comments(read("join_impl/src/join/parse.rs"))
-    m = need(re.search(r"define_group_determiners!\s*\{(.*?)\};", parse_rs, re.S), "define_group_determiners!")
-    body = m.group(1)
-    summary["T1_determiners_sha"] = sha(body)
-    rows = []
-    for row in [r.strip() for r in re.split(r",\s*\n", body) if r.strip()]:
-        mm = need(re.fullmatch(r"(\w+)\s*=>\s*(.*?)\s*=>\s*(\d+)\s*,?", row, re.S), "determiner row: " + row)
-        toks = [tokpat(t) for t in re.split(r",\s*(?=Token!|keywords::|syn::token)", mm.group(2))]
-        rows.append((comb(mm.group(1)), toks, int(mm.group(3))))
-    gd_rs = strip_comments(read("join_impl/src/chain/group/group_determiner.rs"))
-    m = need(re.search(r"macro_rules!\s*define_group_determiners\s*\{(.*?)\n\}", gd_rs, re.S),
-             "macro define_group_determiners")
-    mac = m.group(1)
-    summary["T1_macro_sha"] = sha(mac)
-    need(re.search(r"\[\s*\$crate::define_determiner_with_no_group!\(Token!\[,\] => 0\),", mac),
-         "leading comma determiner")
-    need(re.search(r"new_const\(\s*None,\s*\$crate::handler::Handler::peek_handler as \*const \(\),\s*true,\s*0\s*\)\s*\]", mac),
-         "trailing handler determiner")
-    # token checker forms: 1, 2, 3 tokens use peek/peek2/peek3, more use fork+skip (same semantics in the model)
-    need(re.search(r"input\.peek\(\$token1\) && input\.peek2\(\$token2\) && input\.peek3\(\$token3\)", gd_rs),
-         "3-token checker")
-    need(re.search(r"input\.peek\(\$token\) && \$crate::parse::utils::skip\(&input\)", gd_rs), "n-token checker")
-    handler_rs = strip_comments(read("join_impl/src/handler.rs"))
-    summary["T12_handler_sha"] = sha(handler_rs)
-    hk = []
-    for kw in re.findall(r"syn::custom_keyword!\((\w+)\);", handler_rs):
-        need(re.search(r"input\.peek\(keywords::" + kw + r"\) && input\.peek2\(Token!\[=>\]\)", handler_rs),
-             "peek of handler keyword " + kw)
-        hk.append(kw)
-    if sorted(hk) != ["and_then", "map", "then"]:
-        raise ExtractError("handler keywords changed: %r" % hk)
-    m = need(re.search(r"pub fn peek_handler\(.*?\{(.*?)\n    \}", handler_rs, re.S), "peek_handler")
-    peeks = re.findall(r"Self::peek_(\w+)_handler\(input\)", m.group(1))
-    if sorted(peeks) != ["and_then", "map", "then"]:
-        raise ExtractError("peek_handler changed")
-    L.append("def determiners : List DetRow := [")
-    L.append("  ⟨none, [[.punct [',']]], 0⟩,")
-    for c, toks, n in rows:
-        L.append("  ⟨some %s, [[%s]], %d⟩," % (c, ", ".join(toks), n))
-    alts = ", ".join("[.kw %s, .punct ['=', '>']]" % lean_str(k) for k in peeks)
-    L.append("  ⟨none, [%s], 0⟩]" % alts)
-    L.append("")
-    m = need(re.search(r"DEFERRED_DETERMINER.*?define_determiner_with_no_group!\s*\{\s*(.*?)\s*=>\s*(\d+)\s*\}", parse_rs, re.S),
-             "DEFERRED_DETERMINER")
-    L.append("def deferredDet : DetRow := ⟨none, [[%s]], %s⟩" % (
-        ", ".join(tokpat(t) for t in m.group(1).split(", ")), m.group(2)))
-    m = need(re.search(r"WRAPPER_DETERMINER.*?define_determiner_with_no_group!\s*\{\s*(.*?)\s*=>\s*(\d+)\s*\}", parse_rs, re.S),
-             "WRAPPER_DETERMINER")
-    L.append("def wrapperDet : DetRow := ⟨none, [[%s]], %s⟩" % (
-        ", ".join(tokpat(t) for t in m.group(1).split(", ")), m.group(2)))
-    L.append("")
+    def section(name, defs, fn):
+        """Runs one extraction.  When its text pattern is gone and the last generated tables have these `def`s, they are
+        kept (recorded in summary["fallback"]): the check then has to validate them against the running code."""
+        L = []
+        try:
+            fn(L)
+            return L
+        except ExtractError as e:
+            if os.environ.get("VERIF_NO_FALLBACK") or not all(d in old for d in defs):
+                raise
+            fallback[name] = str(e)
+            out = []
+            for d in defs:
+                out.append(old[d])
+            out.append("")
+            return out
 
-    # ---- T3: option loop (text) ----------------------------------------------------------------
-    m = need(re.search(r"impl Parse for JoinInputDefault \{(.*)\n\}", parse_rs, re.S), "impl Parse for JoinInputDefault")
-    pbody = m.group(1)
-    summary["T3_parse_sha"] = sha(pbody)
-    opts = re.findall(r"if input\.peek\(keywords::(\w+)\) \{\s*input\.parse::<keywords::\1>\(\)\?;\s*let content;\s*"
-                      r"parenthesized!\(content in input\);\s*if join\.\1\.is_some\(\) \{\s*return Err\(input\.error\(\"\1 specified twice\"\)\);\s*\}\s*"
-                      r"join\.\1 = Some\((content\.parse(?:::<LitBool>)?\(\)\?(?:\.value)?)\);", pbody)
-    if len(opts) != 4:
-        raise ExtractError("option blocks: expected 4, found %d" % len(opts))
-    m_for = re.search(r"for _ in 0\.\.(\d+) \{\s*if input\.peek\(keywords::", pbody)
-    m_loop = re.search(r"(?:loop|while [^{]*)\{\s*(?:[^{}]*?)if input\.peek\(keywords::", pbody)
-    if m_for:
-        rounds = "some %s" % m_for.group(1)
-    elif m_loop:
-        rounds = "none"
-    else:
-        raise ExtractError("option loop shape not recognised")
-    L.append("/-- Option keywords in the order they are tried inside one round; `optionRounds = none`: rounds repeat")
-    L.append("    until one parses nothing. -/")
-    L.append("def optionOrder : List String := [%s]" % ", ".join(lean_str(o[0]) for o in opts))
-    L.append("def optionRounds : Option Nat := " + rounds)
-    L.append("")
+    def t_determiners(L):
+        # ---- T1/T2: determiners (text) -------------------------------------------------------------
+        state['parse_rs'] = parse_rs = canon(read("join_impl/src/join/parse.rs"))
+        m = need(re.search(rx("define_group_determiners ! «[({\\[]» «(.*?)» «[)}\\]]» ;"), parse_rs), "define_group_determiners!")
+        body = m.group(1)
+        summary["T1_determiners_sha"] = sha(body)
+        state['rows'] = rows = []
+        for mm in re.finditer(r"(\w+) => ((?:(?:Token ! \[ [^\]]+? \]|keywords :: \w+|syn :: token :: Bracket)(?: , )?)+) => (\d+)(?: ,|$)", body):
+            toks = [tokpat(t) for t in re.split(r" , (?=Token !|keywords ::|syn :: token)", mm.group(2).strip().rstrip(",").strip())]
+            rows.append((comb(mm.group(1)), toks, int(mm.group(3))))
+        if not rows or re.sub(r"(\w+) => ((?:(?:Token ! \[ [^\]]+? \]|keywords :: \w+|syn :: token :: Bracket)(?: , )?)+) => (\d+)(?: ,|$)", "", body).strip():
+            raise ExtractError("determiner rows: unrecognised text in the table: %r" % body[:200])
+        gd_rs = canon(read("join_impl/src/chain/group/group_determiner.rs"))
+        m = need(re.search(rx("macro_rules ! define_group_determiners {"), gd_rs), "macro define_group_determiners")
+        mac = block_after(gd_rs, m.end() - 1)
+        summary["T1_macro_sha"] = sha(mac)
+        need(re.search(rx("[ $crate::define_determiner_with_no_group!(Token![,] => 0),"), mac), "leading comma determiner")
+        need(re.search(rx("new_const(None, $crate::handler::Handler::peek_handler as *const (), true, 0) «~(?: ,)?»]"), mac),
+             "trailing handler determiner")
+        # token checker forms: 1, 2, 3 tokens use peek/peek2/peek3, more use fork+skip (same semantics in the model)
+        need(re.search(rx("input.peek($token1) && input.peek2($token2) && input.peek3($token3)"), gd_rs), "3-token checker")
+        need(re.search(rx("input.peek($token) && $crate::parse::utils::skip(&input)"), gd_rs), "n-token checker")
+        handler_rs = canon(read("join_impl/src/handler.rs"))
+        summary["T12_handler_sha"] = sha(handler_rs)
+        hk = []
+        for kw in re.findall(rx("syn::custom_keyword!(«(\\w+)»);"), handler_rs):
+            need(re.search(rx("input.peek(keywords::" + kw + ") && input.peek2(Token![=>])"), handler_rs),
+                 "peek of handler keyword " + kw)
+            hk.append(kw)
+        if sorted(hk) != ["and_then", "map", "then"]:
+            raise ExtractError("handler keywords changed: %r" % hk)
+        m = need(re.search(rx("pub fn peek_handler(«[^{]*?») -> bool {"), handler_rs), "peek_handler")
+        peeks = re.findall(rx("Self::peek_«(\\w+)»_handler(input)").replace(" ", " ?"), block_after(handler_rs, m.end() - 1))
+        if sorted(peeks) != ["and_then", "map", "then"]:
+            raise ExtractError("peek_handler changed")
+        L.append("def determiners : List DetRow := [")
+        L.append("  ⟨none, [[.punct [',']]], 0⟩,")
+        for c, toks, n in rows:
+            L.append("  ⟨some %s, [[%s]], %d⟩," % (c, ", ".join(toks), n))
+        alts = ", ".join("[.kw %s, .punct ['=', '>']]" % lean_str(k) for k in peeks)
+        L.append("  ⟨none, [%s], 0⟩]" % alts)
+        L.append("")
+        for const, lean_name in (("DEFERRED_DETERMINER", "deferredDet"), ("WRAPPER_DETERMINER", "wrapperDet")):
+            m = need(re.search(rx(const + " : & GroupDeterminer = & crate::define_determiner_with_no_group ! «[({\\[]» «(.*?)» => «(\\d+)» «[)}\\]]» ;"),
+                               parse_rs), const)
+            L.append("def %s : DetRow := ⟨none, [[%s]], %s⟩" % (
+                lean_name, ", ".join(tokpat(t) for t in re.split(r" , (?=Token !)", m.group(1).strip())), m.group(2)))
+        L.append("")
 
-    # ---- harness answers -----------------------------------------------------------------------
-    try:
-        ht = subprocess.run([HARNESS, "tables"], capture_output=True, text=True, check=True).stdout
-    except Exception as e:  # noqa
-        raise ExtractError("harness tables failed: %s" % e)
-    hrows = [l.split("\t") for l in ht.splitlines() if not l.startswith("PROBE")]
-    dets = [r for r in hrows if r[0] == "DET"]
-    if len(dets) != len(rows) + 2:
-        raise ExtractError("determiner count: text %d vs running code %d" % (len(rows) + 2, len(dets)))
-    for (c, toks, n), d in zip(rows, dets[1:-1]):
-        if comb(d[2]) != c or int(d[3]) != n:
-            raise ExtractError("determiner row mismatch text/running code: %r vs %r" % ((c, n), d))
-    combs = [r for r in hrows if r[0] == "COMB"]
-    L.append("def canBeWrapper : List Comb := [%s]" % ", ".join(comb(r[1]) for r in combs if r[2] == "1"))
-    L.append("def isErrExpr : List Comb := [%s]" % ", ".join(comb(r[1]) for r in combs if r[3] == "1"))
-    L.append("")
-    # T7 wrapper ctor
-    wr = []
-    placeholder = None
-    for r in [r for r in hrows if r[0] == "WRAPCTOR"]:
-        m = need(re.search(r"M (\w+) I W ,, X E :: (.*?) ,, M UNWRAP I U$", r[2]), "wrapper ctor dump " + r[2])
-        wr.append((r[1], m.group(1)))
-        if placeholder is None:
-            placeholder = m.group(2)
-        elif placeholder != m.group(2):
-            raise ExtractError("wrapper placeholders differ")
-    # operator source -> combinator via determiner rows: use combinator of the parsed structure; key rows by ctor
-    L.append("/-- For each wrapper-capable operator (source text), the constructor the real parser builds for `op >>>`. -/")
-    L.append("def wrapperCtorBySrc : List (String × Comb) := [%s]" % ", ".join(
-        "(%s, %s)" % (lean_str(a), comb(b)) for a, b in wr))
-    L.append("def wrapperPlaceholder : Toks := " + toks_lean(words_to_lean(placeholder.split(" "), None)))
-    L.append("")
-    # T8/T9 emission
-    L.append("/-- (constructor, operand count) ↦ emitted tokens (`none`: `to_tokens` panics). -/")
-    L.append("def emit : List (Comb × Nat × Option (List TmplTok)) := [")
-    em = [r for r in hrows if r[0] == "EMIT"]
-    holes = {"m0": 0, "m1": 1, "m2": 2, "m3": 3}
-    el = []
-    for r in em:
-        if r[3] == "panic":
-            t = "none"
+
+    def t_options(L):
+        parse_rs = canon(read("join_impl/src/join/parse.rs"))
+        # ---- T3: option loop (text) ----------------------------------------------------------------
+        m = need(re.search(rx("impl Parse for JoinInputDefault {"), parse_rs), "impl Parse for JoinInputDefault")
+        pbody = block_after(parse_rs, m.end() - 1)
+        summary["T3_parse_sha"] = sha(pbody)
+        opts = re.findall(rx("if input.peek(keywords::«(\\w+)») { input.parse::<keywords::«\\1»>()?; let content; "
+                             "parenthesized!(content in input); if join.«\\1».is_some() { return Err(input.error(«\"\\1 specified twice\"»)); } "
+                             "join.«\\1» = Some(«(content \\. parse(?: :: < LitBool >)? \\( \\) \\?(?: \\. value)?)»); }"), pbody)
+        if len(opts) != 4:
+            raise ExtractError("option blocks: expected 4, found %d" % len(opts))
+        first_opt = rx("{ if input.peek(keywords::")
+        m_for = re.search(rx("for _ in 0 .. «(\\d+)»") + " " + first_opt, pbody)
+        m_loop = re.search(r"(?:loop|while [^{]*?) " + first_opt, pbody)
+        if m_for:
+            rounds = "some %s" % m_for.group(1)
+        elif m_loop:
+            rounds = "none"
         else:
-            t = "some " + tmpl_lean(words_to_lean(r[3].split(" "), holes))
-        el.append("  (%s, %s, %s)" % (comb(r[1]), r[2], t))
-    L.append(",\n".join(el) + "]")
-    seen = {}
-    for r in em:
-        seen.setdefault(r[1], (r[4], r[5]))
-    L.append("def replaceable : List Comb := [%s]" % ", ".join(comb(k) for k, v in seen.items() if v[0] == "1"))
-    L.append("def hasInner : List Comb := [%s]" % ", ".join(comb(k) for k, v in seen.items() if v[1] != "none"))
-    L.append("")
+            raise ExtractError("option loop shape not recognised")
+        L.append("/-- Option keywords in the order they are tried inside one round; `optionRounds = none`: rounds repeat")
+        L.append("    until one parses nothing. -/")
+        L.append("def optionOrder : List String := [%s]" % ", ".join(lean_str(o[0]) for o in opts))
+        L.append("def optionRounds : Option Nat := " + rounds)
+        L.append("")
 
-    # ---- T6 arity (text) -----------------------------------------------------------------------
-    ag = strip_comments(read("join_impl/src/chain/group/action_group.rs"))
-    body = cfg_not_full_fn(ag, "parse_action_expr")
-    summary["T6_arity_sha"] = sha(body)
-    eg = strip_comments(read("join_impl/src/chain/group/expr_group.rs"))
-    m = need(re.search(r"parse_n_or_empty_unit_fn!\s*\{(.*?)\}", eg, re.S), "parse_n_or_empty_unit_fn!")
-    unitfn = {}
-    for name, n, e in re.findall(r"(\w+)\s*=>\s*\[(\d+),\s*(true|false)\]", m.group(1)):
-        unitfn[name] = (int(n), e)
-    pe = strip_comments(read("join_impl/src/chain/expr/process_expr.rs"))
-    m = need(re.search(r'#\[cfg\(not\(feature = "full"\)\)\]\s*#\[derive[^\]]*\]\s*pub enum ProcessExpr \{(.*?)\n\}', pe, re.S),
-             "enum ProcessExpr (non-full)")
-    summary["ProcessExpr_enum_sha"] = sha(m.group(1))
-    ctor_kind = {}
-    for name, rest in re.findall(r"^\s*(\w+)(\(.*?\))?,", m.group(1), re.M):
-        ctor_kind[name] = "type" if "Type" in rest else "expr"
-    ar = []
-    for cname, fn, enum, ctor in re.findall(
-            r"Combinator::(\w+)\s*=>\s*\{?\s*ExprGroup::(\w+)\(\s*(\w+)::(\w+),\s*unit_parser,\s*self,\s*input,?\s*\)", body):
-        if fn not in unitfn:
-            raise ExtractError("unknown unit fn " + fn)
-        n, e = unitfn[fn]
-        kind = ctor_kind.get(ctor, "expr") if enum == "ProcessExpr" else "expr"
-        ar.append("  (%s, ⟨%s, %d, %s, .%s⟩)" % (comb(cname), comb(ctor), n, e, kind))
-    if len(ar) != 23:
-        raise ExtractError("arity rows: expected 23, found %d" % len(ar))
-    L.append("def arity : List (Comb × Arity) := [")
-    L.append(",\n".join(ar) + "]")
-    L.append("")
-    # T7 by combinator (text): to_wrapper_action_expr
-    m = need(re.search(r"fn to_wrapper_action_expr\(self\).*?match self\.combinator \{(.*?)_ => return None", ag, re.S),
-             "to_wrapper_action_expr")
-    summary["T7_wrapper_sha"] = sha(m.group(1))
-    wrows = re.findall(r"Combinator::(\w+)\s*=>\s*ActionExpr::\w+\(\w+::(\w+)\(\[return_val\]\)\)", m.group(1))
-    L.append("def wrapperCtor : List (Comb × Comb) := [%s]" % ", ".join("(%s, %s)" % (comb(a), comb(b)) for a, b in wrows))
-    L.append("")
 
-    # ---- T10 macro kinds (text) ----------------------------------------------------------------
-    lib = strip_comments(read("join/src/lib.rs"))
-    fns = re.findall(r"#\[proc_macro\]\s*pub fn (\w+)\(input: TokenStream\) -> TokenStream \{(.*?)\n\}", lib, re.S)
-    summary["T10_lib_sha"] = sha("".join(n + b for n, b in fns))
-    mk = []
-    bodies = set()
-    for name, b in fns:
-        mm = need(re.fullmatch(
-            r"\s*let parsed = syn::parse_macro_input!\(input as JoinInputDefault\);\s*join_impl\(\s*parsed,\s*Config \{(.*?)\},?\s*\)\s*", b, re.S),
-            "body of proc macro " + name)
-        fields = dict(re.findall(r"(is_\w+):\s*(true|false)", mm.group(1)))
-        if sorted(fields) != ["is_async", "is_spawn", "is_try"]:
-            raise ExtractError("Config literal of " + name)
-        mk.append("  ⟨%s, %s, %s, %s⟩" % (lean_str(name), fields["is_async"], fields["is_try"], fields["is_spawn"]))
-        bodies.add(re.sub(r"(is_\w+):\s*(true|false)", r"\1: _", b))
-    if len(bodies) != 1:
-        raise ExtractError("proc macro bodies differ in more than the Config booleans")
-    need(re.search(r"fn join_impl\(join: JoinInputDefault, config: Config\) -> TokenStream \{\s*TokenStream::from\(generate_join\(&join, config\)\)\s*\}", lib),
-         "join_impl helper")
-    L.append("def macroKinds : List MacroKindRow := [")
-    L.append(",\n".join(mk) + "]")
-    L.append("")
+    def t_harness(L):
+        rows = state.get("rows")
+        # ---- harness answers -----------------------------------------------------------------------
+        try:
+            ht = subprocess.run([HARNESS, "tables"], capture_output=True, text=True, check=True).stdout
+        except Exception as e:  # noqa
+            raise ExtractError("harness tables failed: %s" % e)
+        hrows = [l.split("\t") for l in ht.splitlines() if not l.startswith("PROBE")]
+        # keep the harness answers for the probe comparison done by the Lean driver
+        os.makedirs(os.path.join(ROOT, ".build"), exist_ok=True)
+        with open(os.path.join(ROOT, ".build", "harness_tables.txt"), "w") as f:
+            f.write(ht)
+        dets = [r for r in hrows if r[0] == "DET"]
+        if rows is not None:        # (the text table fell back otherwise: the probes decide)
+            if len(dets) != len(rows) + 2:
+                raise ExtractError("determiner count: text %d vs running code %d" % (len(rows) + 2, len(dets)))
+            for (c, toks, n), d in zip(rows, dets[1:-1]):
+                if comb(d[2]) != c or int(d[3]) != n:
+                    raise ExtractError("determiner row mismatch text/running code: %r vs %r" % ((c, n), d))
+        combs = [r for r in hrows if r[0] == "COMB"]
+        L.append("def canBeWrapper : List Comb := [%s]" % ", ".join(comb(r[1]) for r in combs if r[2] == "1"))
+        L.append("def isErrExpr : List Comb := [%s]" % ", ".join(comb(r[1]) for r in combs if r[3] == "1"))
+        L.append("")
+        # T7 wrapper ctor
+        wr = []
+        placeholder = None
+        for r in [r for r in hrows if r[0] == "WRAPCTOR"]:
+            m = need(re.search(r"M (\w+) I W ,, X E :: (.*?) ,, M UNWRAP I U$", r[2]), "wrapper ctor dump " + r[2])
+            wr.append((r[1], m.group(1)))
+            if placeholder is None:
+                placeholder = m.group(2)
+            elif placeholder != m.group(2):
+                raise ExtractError("wrapper placeholders differ")
+        # operator source -> combinator via determiner rows: use combinator of the parsed structure; key rows by ctor
+        L.append("/-- For each wrapper-capable operator (source text), the constructor the real parser builds for `op >>>`. -/")
+        L.append("def wrapperCtorBySrc : List (String × Comb) := [%s]" % ", ".join(
+            "(%s, %s)" % (lean_str(a), comb(b)) for a, b in wr))
+        L.append("def wrapperPlaceholder : Toks := " + toks_lean(words_to_lean(placeholder.split(" "), None)))
+        L.append("")
+        # T8/T9 emission
+        L.append("/-- (constructor, operand count) ↦ emitted tokens (`none`: `to_tokens` panics). -/")
+        L.append("def emit : List (Comb × Nat × Option (List TmplTok)) := [")
+        em = [r for r in hrows if r[0] == "EMIT"]
+        holes = {"m0": 0, "m1": 1, "m2": 2, "m3": 3}
+        el = []
+        for r in em:
+            if r[3] == "panic":
+                t = "none"
+            else:
+                t = "some " + tmpl_lean(words_to_lean(r[3].split(" "), holes))
+            el.append("  (%s, %s, %s)" % (comb(r[1]), r[2], t))
+        L.append(",\n".join(el) + "]")
+        seen = {}
+        for r in em:
+            seen.setdefault(r[1], (r[4], r[5]))
+        L.append("def replaceable : List Comb := [%s]" % ", ".join(comb(k) for k, v in seen.items() if v[0] == "1"))
+        L.append("def hasInner : List Comb := [%s]" % ", ".join(comb(k) for k, v in seen.items() if v[1] != "none"))
+        L.append("")
 
-    # ---- T11 names (text) ----------------------------------------------------------------------
-    nc = strip_comments(read("join_impl/src/join/name_constructors.rs"))
-    nc = nc.split("#[cfg(test)]")[0]
-    summary["T11_names_sha"] = sha(nc)
-    fmt = dict(re.findall(r'pub fn (construct_\w+)\([^)]*\) -> Ident \{\s*format_ident!\(\s*"([^"]*)"', nc))
-    fixed = dict(re.findall(r'pub fn (construct_\w+)\(\) -> Ident \{\s*Ident::new\("([^"]*)", Span::call_site\(\)\)', nc))
-    want_fmt = ["construct_var_name", "construct_step_results_name", "construct_result_name",
-                "construct_thread_builder_name", "construct_expr_wrapper_name"]
-    want_fixed = ["construct_inspect_fn_name", "construct_spawn_tokio_fn_name", "construct_results_name",
-                  "construct_handler_name", "construct_internal_value_name", "construct_thread_builder_fn_name"]
-    for w in want_fmt:
-        if w not in fmt:
-            raise ExtractError("name constructor " + w)
-    for w in want_fixed:
-        if w not in fixed:
-            raise ExtractError("name constructor " + w)
 
-    def pieces(f):
-        return "[" + ", ".join(lean_str(p) for p in f.split("{}")) + "]"
-    L.append("/-- Format pieces: the name is piece₀ ++ repr i₀ ++ piece₁ ++ repr i₁ ++ … -/")
-    L.append("def fmtVar : List String := " + pieces(fmt["construct_var_name"]))
-    L.append("def fmtStepResults : List String := " + pieces(fmt["construct_step_results_name"]))
-    L.append("def fmtResult : List String := " + pieces(fmt["construct_result_name"]))
-    L.append("def fmtThreadBuilder : List String := " + pieces(fmt["construct_thread_builder_name"]))
-    L.append("def fmtExprWrapper : List String := " + pieces(fmt["construct_expr_wrapper_name"]))
-    L.append("def nameInspect : String := " + lean_str(fixed["construct_inspect_fn_name"]))
-    L.append("def nameSpawnTokio : String := " + lean_str(fixed["construct_spawn_tokio_fn_name"]))
-    L.append("def nameResults : String := " + lean_str(fixed["construct_results_name"]))
-    L.append("def nameHandler : String := " + lean_str(fixed["construct_handler_name"]))
-    L.append("def nameValue : String := " + lean_str(fixed["construct_internal_value_name"]))
-    L.append("def nameThreadBuilderFn : String := " + lean_str(fixed["construct_thread_builder_fn_name"]))
-    L.append("")
+    def t_arity(L):
+        # ---- T6 arity (text) -----------------------------------------------------------------------
+        state['ag'] = ag = canon(read("join_impl/src/chain/group/action_group.rs"))
+        m = need(re.search(rx("#[cfg(not(feature = \"full\"))] «~(?: pub)?» fn parse_action_expr «[^{]*?» {"), ag),
+                 "non-full fn parse_action_expr")
+        body = block_after(ag, m.end() - 1)
+        summary["T6_arity_sha"] = sha(body)
+        eg = canon(read("join_impl/src/chain/group/expr_group.rs"))
+        m = need(re.search(rx("parse_n_or_empty_unit_fn ! «[({\\[]» «(.*?)» «[)}]»"), eg), "parse_n_or_empty_unit_fn!")
+        unitfn = {}
+        for name, n, e in re.findall(rx("«(\\w+)» => [ «(\\d+)» , «(true|false)» ]"), m.group(1)):
+            unitfn[name] = (int(n), e)
+        pe = canon(read("join_impl/src/chain/expr/process_expr.rs"))
+        m = need(re.search(rx("#[cfg(not(feature = \"full\"))] #[derive(«[^\\]]*»)] pub enum ProcessExpr {"), pe), "enum ProcessExpr (non-full)")
+        enum_body = block_after(pe, m.end() - 1)
+        summary["ProcessExpr_enum_sha"] = sha(enum_body)
+        ctor_kind = {}
+        for name, rest in re.findall(r"(?:^|, )(\w+)( \( [^()]*? \))?(?= ,|$)", enum_body):
+            ctor_kind[name] = "type" if "Type" in rest else "expr"
+        ar = []
+        for cname, fn, enum, ctor in re.findall(
+                rx("Combinator::«(\\w+)» => «~(?: \\{)?» ExprGroup::«(\\w+)»(«(\\w+)»::«(\\w+)», unit_parser, self, input «~(?: ,)?»)"), body):
+            if fn not in unitfn:
+                raise ExtractError("unknown unit fn " + fn)
+            n, e = unitfn[fn]
+            kind = ctor_kind.get(ctor, "expr") if enum == "ProcessExpr" else "expr"
+            ar.append("  (%s, ⟨%s, %d, %s, .%s⟩)" % (comb(cname), comb(ctor), n, e, kind))
+        if len(ar) != 23:
+            raise ExtractError("arity rows: expected 23, found %d" % len(ar))
+        L.append("def arity : List (Comb × Arity) := [")
+        L.append(",\n".join(ar) + "]")
+        L.append("")
+
+    def t_wrapper(L):
+        ag = canon(read("join_impl/src/chain/group/action_group.rs"))
+        # T7 by combinator (text): to_wrapper_action_expr
+        m = need(re.search(rx("fn to_wrapper_action_expr(self) «[^{]*?» {"), ag), "to_wrapper_action_expr")
+        wbody = block_after(ag, m.end() - 1)
+        m = need(re.search(rx("match self.combinator { «(.*?)» _ => return None"), wbody), "to_wrapper_action_expr match")
+        summary["T7_wrapper_sha"] = sha(m.group(1))
+        wrows = re.findall(rx("Combinator::«(\\w+)» => «~(?: \\{)?» ActionExpr::«\\w+»(«\\w+»::«(\\w+)»([return_val]))"), m.group(1))
+        if len(wrows) != m.group(1).count("Combinator ::") or not wrows:
+            raise ExtractError("to_wrapper_action_expr: %d arms recognised of %d" % (len(wrows), m.group(1).count("Combinator ::")))
+        L.append("def wrapperCtor : List (Comb × Comb) := [%s]" % ", ".join("(%s, %s)" % (comb(a), comb(b)) for a, b in wrows))
+        L.append("")
+
+
+    def t_kinds(L):
+        # ---- T10 macro kinds (text) ----------------------------------------------------------------
+        lib = canon(read("join/src/lib.rs"))
+        fns = []
+        for m in re.finditer(rx("#[proc_macro] pub fn «(\\w+)»(input: TokenStream) -> TokenStream {"), lib):
+            fns.append((m.group(1), block_after(lib, m.end() - 1)))
+        summary["T10_lib_sha"] = sha("".join(n + b for n, b in fns))
+        mk = []
+        bodies = set()
+        for name, b in fns:
+            mm = need(re.fullmatch(
+                rx("let parsed = syn::parse_macro_input!(input as JoinInputDefault); join_impl(parsed, Config { «(.*?)» } «~(?: ,)?»)"), b),
+                "body of proc macro " + name)
+            fields = dict(re.findall(r"(is_\w+) : (true|false)", mm.group(1)))
+            if sorted(fields) != ["is_async", "is_spawn", "is_try"]:
+                raise ExtractError("Config literal of " + name)
+            mk.append("  ⟨%s, %s, %s, %s⟩" % (lean_str(name), fields["is_async"], fields["is_try"], fields["is_spawn"]))
+            bodies.add(re.sub(r" , (?=[)}\]])", " ", re.sub(r"Config \{ .*? \}", "Config { _ }", b)))
+        if len(bodies) != 1:
+            raise ExtractError("proc macro bodies differ in more than the Config booleans")
+        need(re.search(rx("fn join_impl(join: JoinInputDefault, config: Config) -> TokenStream { TokenStream::from(generate_join(&join, config)) }"), lib),
+             "join_impl helper")
+        L.append("def macroKinds : List MacroKindRow := [")
+        L.append(",\n".join(mk) + "]")
+        L.append("")
+
+
+    def t_names(L):
+        # ---- T11 names (text) ----------------------------------------------------------------------
+        nc = canon(read("join_impl/src/join/name_constructors.rs"))
+        nc = nc.split("# [ cfg ( test ) ]")[0]
+        summary["T11_names_sha"] = sha(nc)
+        fmt = dict(re.findall(rx("pub fn «(construct_\\w+)»(«[^)]*») -> Ident { format_ident!(«\"([^\"]*)\"»"), nc))
+        fixed = dict(re.findall(rx("pub fn «(construct_\\w+)»() -> Ident { Ident::new(«\"([^\"]*)\"», Span::call_site())"), nc))
+        want_fmt = ["construct_var_name", "construct_step_results_name", "construct_result_name",
+                    "construct_thread_builder_name", "construct_expr_wrapper_name"]
+        want_fixed = ["construct_inspect_fn_name", "construct_spawn_tokio_fn_name", "construct_results_name",
+                      "construct_handler_name", "construct_internal_value_name", "construct_thread_builder_fn_name"]
+        for w in want_fmt:
+            if w not in fmt:
+                raise ExtractError("name constructor " + w)
+        for w in want_fixed:
+            if w not in fixed:
+                raise ExtractError("name constructor " + w)
+
+        def pieces(f):
+            return "[" + ", ".join(lean_str(p) for p in f.split("{}")) + "]"
+        L.append("/-- Format pieces: the name is piece₀ ++ repr i₀ ++ piece₁ ++ repr i₁ ++ … -/")
+        L.append("def fmtVar : List String := " + pieces(fmt["construct_var_name"]))
+        L.append("def fmtStepResults : List String := " + pieces(fmt["construct_step_results_name"]))
+        L.append("def fmtResult : List String := " + pieces(fmt["construct_result_name"]))
+        L.append("def fmtThreadBuilder : List String := " + pieces(fmt["construct_thread_builder_name"]))
+        L.append("def fmtExprWrapper : List String := " + pieces(fmt["construct_expr_wrapper_name"]))
+        L.append("def nameInspect : String := " + lean_str(fixed["construct_inspect_fn_name"]))
+        L.append("def nameSpawnTokio : String := " + lean_str(fixed["construct_spawn_tokio_fn_name"]))
+        L.append("def nameResults : String := " + lean_str(fixed["construct_results_name"]))
+        L.append("def nameHandler : String := " + lean_str(fixed["construct_handler_name"]))
+        L.append("def nameValue : String := " + lean_str(fixed["construct_internal_value_name"]))
+        L.append("def nameThreadBuilderFn : String := " + lean_str(fixed["construct_thread_builder_fn_name"]))
+        L.append("")
+
+    L = list(head)
+    L += section("determiners", ["determiners", "deferredDet", "wrapperDet"], t_determiners)
+    L += section("options", ["optionOrder", "optionRounds"], t_options)
+    L += t_harness_checked(t_harness, state)
+    L += section("arity", ["arity"], t_arity)
+    L += section("wrapperCtor", ["wrapperCtor"], t_wrapper)
+    L += section("macroKinds", ["macroKinds"], t_kinds)
+    L += section("names", ["fmtVar", "fmtStepResults", "fmtResult", "fmtThreadBuilder", "fmtExprWrapper", "nameInspect",
+                           "nameSpawnTokio", "nameResults", "nameHandler", "nameValue", "nameThreadBuilderFn"], t_names)
     L.append("end JoinModel.Tables")
     text = "\n".join(L) + "\n"
-    old = None
+    text = re.sub(r"\n{3,}", "\n\n", text)
+    prev = None
     if os.path.exists(OUT):
         with open(OUT) as f:
-            old = f.read()
-    if old != text:
+            prev = f.read()
+    if prev != text:
         with open(OUT, "w") as f:
             f.write(text)
     summary["tables_lean_sha"] = sha(text)
-    summary["changed"] = old != text
-    # keep the harness answers for the probe comparison done by the Lean driver
-    with open(os.path.join(ROOT, ".build", "harness_tables.txt"), "w") as f:
-        f.write(ht)
+    summary["changed"] = prev != text
+    if fallback:
+        summary["fallback"] = fallback
     print(json.dumps(summary))
+
+
+def t_harness_checked(fn, state):
+    L = []
+    fn(L)
+    return L
 
 
 if __name__ == "__main__":
